@@ -3,7 +3,7 @@
 Programs of every outcome class (prints and succeeds; compile error at a known position; unhandled runtime error;
 handled error; return of boolean / integer / decimal / string / tuple / complex / null / table / bytes / nothing;
 output before a failure; reads $ARG) x argument vectors (all vectors of <= 1 (quick) / <= 2 (thorough) items over
-"", "a b", "\"q\"", "é", "-x", "--out=z", "-") x modes {file, - (stdin), --out=F file, -e expr, -i fed on stdin}.
+"", "a b", "\"q\"", "é", "-x", "--out=z", "-", "-e", "-i", "--parse") x modes {file, - (stdin), --out=F file, -e expr, -i fed on stdin}.
 Oracle: the in-process run of the same program through the library with $ARG set identically: selected output
 byte-equal (stdout or the --out file, the other empty), $ARG in order, returned value printed by the documented
 rule, exit status 0 iff compiled and ran without unhandled error, otherwise a message on stderr with (line:column)
@@ -66,7 +66,7 @@ for _b in (0x01, 0x09, 0x0b, 0x0c, 0x1a, 0x1b, 0x7f, 0x80, 0xa0, 0xc3, 0xfe, 0xf
     PROGRAMS.append(("byte-%02x-block-comment-line-start" % _b, b'print "x"; /* c\n' + _c + b' d */\nprint "next";\n'))
     PROGRAMS.append(("byte-%02x-last-byte" % _b, b'print "x"; #' + _c))
     PROGRAMS.append(("byte-%02x-bare" % _b, b'print "x";\n' + _c + b'\nprint "next";\n'))
-ARGS = ["", "a b", '"q"', "é", "-x", "--out=z", "-"]
+ARGS = ["", "a b", '"q"', "é", "-x", "--out=z", "-", "-e", "-i", "--parse"]
 
 
 def tb(text):
@@ -282,6 +282,9 @@ def run(tier):
             continue
         sel = filedata if mode == "out" else out
         other = out if mode == "out" else None
+        if sel is None:
+            col.viol("out-routing:file-missing:%s" % name, "%s: the file named by --out was not written; standard output %r" % (where, out[:200]), det)
+            continue
         r = step.get("r")
         if r == "ok":
             want = rout
